@@ -1,13 +1,13 @@
 SPECIFICATION Spec
 CONSTANTS N = 3
  MaxExtraOut = 1
- VarChoices = {0}
+ VarChoices = {1, 2}
  PreStart = "earlier"
  Shorten = "notlast"
  CascadeTime = "shared"
- OutputsAt = "producer"
+ OutputsAt = "end"
  Protect = "fixed"
- VarsAt = "whole"
+ VarsAt = "uses"
 INVARIANT CoversUse
 INVARIANT FuseSafe
 CHECK_DEADLOCK FALSE
